@@ -4,7 +4,7 @@
    that Store.parse gives, with keys as their blank-free texts.  "INI lexing is by generation" becomes a theorem here. *)
 From Coq Require Import ZArith List Bool Lia ZifyBool.
 From V Require Import lib.Common model.Store.
-From V Require Import model.Ini proof.IniProofs proof.IniFile proof.IniFile2.
+From V Require Import model.Ini model.ItemLabel proof.IniProofs proof.IniFile proof.IniFile2 proof.C14Label.
 Import ListNotations.
 Local Open Scope Z_scope.
 
@@ -203,6 +203,44 @@ Section Text.
     - apply IH. intros k1 k2 H1 H2. apply H; right; assumption.
   Qed.
 
+  (* ---- the species a key names (model/ItemLabel.v: pair_key, fs_key) *)
+  Lemma label_strip n : strip (ltext n) = ltext n.
+  Proof.
+    destruct (label_head n) as (c & t & E & Hc). destruct (label_last n) as (u & d & Eu & Hd). rewrite E in *.
+    exact (strip_noop c t u d (proj1 (pc_facts c Hc)) (proj1 (pc_facts d Hd)) Eu).
+  Qed.
+  Lemma label_without c : pc c = false -> forall n, without c (ltext n).
+  Proof.
+    intros Hc n. unfold without. destruct (labels n) as [_ H]. rewrite forallb_forall in *. intros x Hx. specialize (H x Hx).
+    destruct (x =? c) eqn:E; [apply Z.eqb_eq in E; subst; congruence|reflexivity].
+  Qed.
+  Lemma label_nonempty n : is_empty (ltext n) = false.
+  Proof. destruct (label_head n) as (c & t & E & _). rewrite E. reflexivity. Qed.
+  Lemma split_arrow_cons c d r : split_arrow (c :: d :: r) =
+    if (c =? 45) && (d =? 62) then Some ([], r) else match split_arrow (d :: r) with Some (a, b) => Some (c :: a, b) | None => None end.
+  Proof. reflexivity. Qed.
+  Lemma split_arrow_none l : without 45 l -> split_arrow l = None.
+  Proof.
+    unfold without. induction l as [|c r IH]; intro H; [reflexivity|]. cbn [forallb] in H. apply andb_true_iff in H. destruct H as [Hc Hr].
+    apply negb_true_iff in Hc. destruct r as [|d r']; [reflexivity|]. rewrite split_arrow_cons, Hc. cbn [andb]. rewrite (IH Hr). reflexivity.
+  Qed.
+  Lemma split_arrow_app a b : without 45 a -> split_arrow (a ++ 45 :: 62 :: b) = Some (a, b).
+  Proof.
+    unfold without. induction a as [|c a IH]; intro H; [reflexivity|]. cbn [forallb] in H. apply andb_true_iff in H. destruct H as [Hc Ha].
+    apply negb_true_iff in Hc. cbn [app]. destruct (a ++ 45 :: 62 :: b) as [|d r'] eqn:E; [destruct a; discriminate|].
+    rewrite split_arrow_cons, Hc. cbn [andb]. rewrite (IH Ha). reflexivity.
+  Qed.
+  Theorem pair_key_canon a b : pair_key (canon (KPair a b)) = Some (ltext a, ltext b).
+  Proof.
+    unfold pair_key. cbn [canon app]. rewrite (split_first_app 45 _ _ (label_without 45 eq_refl a)), (contains_without _ _ (label_without 45 eq_refl b)).
+    unfold two_species. rewrite !label_strip, !label_nonempty. reflexivity.
+  Qed.
+  Theorem fs_key_canon a b : fs_key (canon (KFS a b)) = Some (ltext a, ltext b).
+  Proof.
+    unfold fs_key. cbn [canon app]. rewrite (split_arrow_app _ _ (label_without 45 eq_refl a)), (split_arrow_none _ (label_without 45 eq_refl b)).
+    unfold two_species. rewrite !label_strip, !label_nonempty. reflexivity.
+  Qed.
+
   (* ---- sections *)
   Definition table_ws (sp : nat) : list Z * list Z := nth (sp mod 4) [([], []); ([32], []); ([], [32]); ([32; 32], [32])] ([], []).
   Definition sect_text (s : Store.sect) : list Z :=
@@ -346,3 +384,27 @@ Section Text.
     intros Hv Hc Hp. apply (store_text_ok f (map add_blank (to_osec f)) st); [apply plain_add_blank|apply blanks_add_blank|exact Hv|apply headers_ok_all|exact Hc|exact Hp].
   Qed.
 End Text.
+
+(* malformed species keys are refused: no separator, more than one, or a species missing *)
+Theorem pair_key_no_dash k : without 45 k -> pair_key k = None.
+Proof. intro H. unfold pair_key. rewrite (split_first_none 45 k H). reflexivity. Qed.
+Theorem pair_key_two_dashes a b c : without 45 a -> pair_key (a ++ 45 :: b ++ 45 :: c) = None.
+Proof.
+  intro H. unfold pair_key. rewrite (split_first_app 45 a _ H).
+  assert (E : contains 45 (b ++ 45 :: c) = true) by (rewrite contains_app; cbn; apply orb_true_r). rewrite E. reflexivity.
+Qed.
+Theorem pair_key_missing_species a : without 45 a -> all_sp a -> forall b, pair_key (a ++ 45 :: b) = None /\ (without 45 b -> pair_key (b ++ 45 :: a) = None).
+Proof.
+  intros H Ha b. assert (E : strip a = []) by (unfold strip; rewrite (lstrip_all_sp _ Ha); reflexivity). split.
+  - unfold pair_key. rewrite (split_first_app 45 a _ H). destruct (contains 45 b); [reflexivity|]. unfold two_species. rewrite E. reflexivity.
+  - intro Hb. unfold pair_key. rewrite (split_first_app 45 b _ Hb), (contains_without _ _ H). unfold two_species. rewrite E. cbn. rewrite orb_true_r. reflexivity.
+Qed.
+Theorem fs_key_no_arrow k : without 45 k -> fs_key k = None.
+Proof.
+  intro H. unfold fs_key. assert (E : split_arrow k = None).
+  { unfold without in H. induction k as [|c r IH]; [reflexivity|]. cbn [forallb] in H. apply andb_true_iff in H. destruct H as [Hc Hr].
+    apply negb_true_iff in Hc. destruct r as [|d r']; [reflexivity|].
+    change (split_arrow (c :: d :: r')) with (if (c =? 45) && (d =? 62) then Some ([], r') else match split_arrow (d :: r') with Some (a, b) => Some (c :: a, b) | None => None end).
+    rewrite Hc. cbn [andb]. rewrite (IH Hr). reflexivity. }
+  rewrite E. reflexivity.
+Qed.
